@@ -680,6 +680,24 @@ func (d *Driver) judgeC17rounds() {
 		if len(r.attempts) > 4 {
 			d.h.violate("C17", "acquire-more-than-4-attempts", fmt.Sprintf("round of i%d made %d attempts", inst, len(r.attempts)), r.attempts[4].T, r.attempts[4].Step)
 		}
+		// an attempt is one try to create the record: a second Create inside one attempt (no backoff
+		// in between) is an attempt the round does not account for
+		nCreates := 0
+		for k, at := range r.attempts {
+			n := 0
+			for _, op := range r.ops {
+				if op.Kind == "create" && op.SInvoke >= at.Step && (k+1 == len(r.attempts) || op.SInvoke < r.attempts[k+1].Step) {
+					n++
+				}
+			}
+			nCreates += n
+			if n > 1 {
+				d.h.violate("C17", "acquire-attempt-with-several-creates", fmt.Sprintf("round of i%d: attempt %d issued %d Create calls without a backoff between them", inst, k+1, n), at.T, at.Step)
+			}
+		}
+		if nCreates > 4 {
+			d.h.violate("C17", "acquire-more-than-4-creates", fmt.Sprintf("round of i%d issued %d Create calls", inst, nCreates), first.T, first.Step)
+		}
 		// gaps: end of attempt k (return of its last store operation, or its start if it issued
 		// none) + backoff(k) = start of attempt k+1
 		for k := 1; k < len(r.attempts); k++ {
